@@ -12,6 +12,10 @@ LeavesOf(lvl)   == UNION {FieldLeaves(lvl.named[k]) : k \in DOMAIN lvl.named}
 PosItemsOf(lvl) == (IF lvl.tail.kind = "pos" THEN RangeOf(lvl.tail.items)
                     ELSE IF lvl.tail.kind = "cmd" THEN RangeOf(lvl.tail.else_pos) ELSE {})
                    \cup UNION {IF lvl.named[k].kind = "adj" THEN RangeOf(PosMembers(lvl.named[k])) ELSE {} : k \in DOMAIN lvl.named}
+                   \* a positional item that is one branch of a choice
+                   \cup UNION {IF lvl.named[k].kind = "alt"
+                               THEN UNION {{x \in RangeOf(lvl.named[k].branches[b].fields) : x.kind = "pos"} : b \in DOMAIN lvl.named[k].branches}
+                               ELSE {} : k \in DOMAIN lvl.named}
 Hidden(x)       == x.hidden
 FirstNames(it)  == (IF it.shorts # <<>> THEN {it.shorts[1]} ELSE {}) \cup (IF it.longs # <<>> THEN {it.longs[1]} ELSE {})
 AliasNames(it)  == NamesOf(it) \ FirstNames(it)
